@@ -101,16 +101,25 @@ public:
     const col_range_type& cols() const { return my_cols; }
 
 private:
+    //! True if the second dimension is the better one to split.
+    /** The ratios are compared in floating point, where sizes above 2^53 round and a tie goes to the first
+        dimension: a dimension that is not divisible is never preferred. */
+    template <typename First, typename Second>
+    static bool prefer_second( const First& first, const Second& second ) {
+        return !first.is_divisible() || (second.is_divisible() &&
+               first.size()*double(second.grainsize()) < second.size()*double(first.grainsize()));
+    }
+
     template <typename Split>
     void do_split( blocked_range3d& r, Split& split_obj) {
-        if ( my_pages.size()*double(my_rows.grainsize()) < my_rows.size()*double(my_pages.grainsize()) ) {
-            if ( my_rows.size()*double(my_cols.grainsize()) < my_cols.size()*double(my_rows.grainsize()) ) {
+        if ( prefer_second(my_pages, my_rows) ) {
+            if ( prefer_second(my_rows, my_cols) ) {
                 my_cols.my_begin = col_range_type::do_split(r.my_cols, split_obj);
             } else {
                 my_rows.my_begin = row_range_type::do_split(r.my_rows, split_obj);
             }
         } else {
-            if ( my_pages.size()*double(my_cols.grainsize()) < my_cols.size()*double(my_pages.grainsize()) ) {
+            if ( prefer_second(my_pages, my_cols) ) {
                 my_cols.my_begin = col_range_type::do_split(r.my_cols, split_obj);
             } else {
                 my_pages.my_begin = page_range_type::do_split(r.my_pages, split_obj);
